@@ -82,6 +82,11 @@ def driver_source(pkg, with_ndjson=True, extra="", ns=None, manual_types=None):
         if manual_types:
             out.append('  if (mode == "pzb" || mode == "frb") { manual_%s(mode, in, out, bs); return; }' % p.name)
         out.append('  if (mode == "b2b") { %s::binary::%sReader r(in); %s::binary::%sWriter w(out); r.CopyTo(w%s); r.Close(); w.Close(); }' % (ns, p.name, ns, p.name, args))
+        for lbl, oldpkg in getattr(pkg, "versions", []):
+            if any(op.name == p.name for op in oldpkg.protocols):
+                # read a stream of any known version, write it for the listed previous version
+                out.append('  else if (mode == "b2b@%s") { %s::binary::%sReader r(in); %s::binary::%sWriter w(out, %s::Version::%s); r.CopyTo(w%s); r.Close(); w.Close(); }' % (
+                    lbl, ns, p.name, ns, p.name, ns, lbl, args))
         if with_ndjson:
             out.append('  else if (mode == "b2n") { %s::binary::%sReader r(in); %s::ndjson::%sWriter w(out); r.CopyTo(w%s); r.Close(); w.Close(); }' % (ns, p.name, ns, p.name, args))
             out.append('  else if (mode == "n2b") { %s::ndjson::%sReader r(in); %s::binary::%sWriter w(out); r.CopyTo(w%s); r.Close(); w.Close(); }' % (ns, p.name, ns, p.name, args))
